@@ -20,8 +20,8 @@ import random
 
 ID = "C01"
 DRIVER = "drv_c01"
-LEAN_TARGETS = ["PharmpyProofs.C01.Properties", "PharmpyProofs.C01.PropertiesAdvan", "PharmpyProofs.C01.PropertiesOmega", "drv_c01"]
-PROPERTIES = ["PharmpyProofs/C01/Properties.lean", "PharmpyProofs/C01/PropertiesAdvan.lean", "PharmpyProofs/C01/PropertiesOmega.lean"]
+LEAN_TARGETS = ["PharmpyProofs.C01.Properties", "PharmpyProofs.C01.PropertiesAdvan", "PharmpyProofs.C01.PropertiesOmega", "PharmpyProofs.C01.PropertiesDes", "drv_c01"]
+PROPERTIES = ["PharmpyProofs/C01/Properties.lean", "PharmpyProofs/C01/PropertiesAdvan.lean", "PharmpyProofs/C01/PropertiesOmega.lean", "PharmpyProofs/C01/PropertiesDes.lean"]
 LEAN_SOURCES = ["PharmpyModel/C01/*.lean", "PharmpyModel/Generated/Advan.lean", "PharmpyProofs/C01/*.lean", "Drivers/C01.lean"]
 TIME_LIMIT = {"quick": 900, "thorough": 3000}
 CASE_CPU_LIMIT = 60
@@ -106,6 +106,8 @@ def g_expr(rng, avail, depth=0):
         return ["pow", e, ["num", rng.choice(["2", "3"]), None]]
     if r < 0.93:
         return ["neg", g_expr(rng, avail, depth + 1)]
+    if r < 0.945:
+        return ["fmod", g_leaf(rng, avail), ["num", *rng.choice([("2", "2"), ("3", "3")])]]
     f = rng.choice(FUNCS)
     a = g_leaf(rng, avail)
     if f in ("LOG", "SQRT"):
@@ -242,8 +244,11 @@ def gen_cases(rng: random.Random, n: int, tier: str):
         if r < 0.30:
             out.append(g_omega_case(rng, seed))
             continue
-        if r < 0.50:
+        if r < 0.46:
             out.append(g_des_case(rng, seed))
+            continue
+        if r < 0.52:
+            out.append(g_linear_case(rng, seed))
             continue
         safe = rng.random() < 0.5
         if r < 0.60:
@@ -293,6 +298,8 @@ def corpus_cases():
         # unary minus before literal ** (Fortran: -(2**2))
         {"kind": "prog", "layout": "pred", "stmts": [["=", "AA", ["neg", ["pow", _n(2), _n(2)]]],
                                                       ["=", "BB", ["fn", "EXP", ["neg", ["pow", _n(2), _n(2)]]]]], "stmts2": [], "seed": 22},
+        # MOD of a negative dividend (Fortran: sign of the dividend)
+        {"kind": "prog", "layout": "pred", "stmts": [["=", "AA", ["fmod", ["neg", _n(7)], _n(3)]], ["=", "BB", ["fmod", ["sub", ["sym", "X"], _n(9)], _n(2)]]], "stmts2": [], "seed": 24},
         # parenthesised logical sub-expression
         {"kind": "prog", "layout": "pred", "bool_parens": True,
          "stmts": [["=", "AA", _n(0)], ["if", ["not", X0], "AA", _n(1)]], "stmts2": [], "seed": 23},
@@ -391,6 +398,8 @@ def r_expr(e, rng, lvl=0):
         return f"{e[1]}({e[2]})"
     if k == "fn":
         return f"{e[1]}({r_expr(e[2], rng, 0)})"
+    if k == "fmod":
+        return f"MOD({r_expr(e[1], rng, 0)},{r_expr(e[2], rng, 0)})"
     if k in ("add", "sub"):
         s = r_expr(e[1], rng, 0) + (" + " if k == "add" else " - ") + r_expr(e[2], rng, 1)
         my = 0
@@ -525,6 +534,10 @@ def w_prog(stmts, quirk=False):
     return out, ctr[0]
 
 
+def has_mod(x):
+    return isinstance(x, list) and ((len(x) > 0 and x[0] == "fmod") or any(has_mod(y) for y in x))
+
+
 def has_signpow(x):
     """a unary minus directly before `literal ** …` somewhere in the statement / expression."""
     if not isinstance(x, list):
@@ -586,6 +599,9 @@ def _rel(op, a, b):
 FN = {"exp": lambda a: sympy.exp(a), "log": lambda a: sympy.log(a), "sqrt": lambda a: sympy.sqrt(a), "abs": lambda a: sympy.Abs(a)}
 
 
+_MOD_FORTRAN = [True]
+
+
 def ev(s, env):
     """wire expression -> exact value (sympy number) or python bool; raises Undef."""
     if isinstance(s, int):
@@ -620,6 +636,14 @@ def ev(s, env):
     b = ev(s[2], env)
     if op in RELS:
         return bool(_rel(op, a, b))
+    if op == "fmod":
+        if b == 0:
+            raise Undef()
+        if _MOD_FORTRAN[0]:
+            q = a / b
+            tq = sympy.floor(q) if q >= 0 else sympy.ceiling(q)      # Fortran MOD(a,b) = a - b*INT(a/b): sign of a
+            return a - b * tq
+        return sympy.Mod(a, b)                                        # sympy.Mod: sign of b
     if op == "add":
         return a + b
     if op == "sub":
@@ -880,10 +904,13 @@ def k_record(drv, wire, rec_statements, rng, label, k, tags):
             env = {nme: rand_value(rng, nme) for nme in names}
             kinds = []
             try:
+                _MOD_FORTRAN[0] = False          # model vs code: the code's MOD is sympy.Mod
                 vm = ev(ms[2], env)
             except Undef as u:
                 vm = None
                 kinds.append(u.kind)
+            finally:
+                _MOD_FORTRAN[0] = True
             try:
                 vc = ev_sympy(ce, env)
             except Undef as u:
@@ -922,7 +949,7 @@ def _wsyms(s, acc=None):
 
 def has_fn(w):
     if isinstance(w, list) and w:
-        return (isinstance(w[0], str) and w[0] in FN) or any(has_fn(x) for x in w)
+        return (isinstance(w[0], str) and (w[0] in FN or w[0] == "fmod")) or any(has_fn(x) for x in w)
     return False
 
 
@@ -1041,6 +1068,8 @@ def run_prog(case, drv):
                     cls = mon_class(unsafe)
                     if cls == "translate-unsound-safe-statement" and has_signpow(st):
                         cls = "unary-minus-literal-power"
+                    elif cls == "translate-unsound-safe-statement" and has_mod(st):
+                        cls = "mod-negative-dividend"
                     shown = {q: str(v) for q, v in env_nm.items() if q in base_names or q == "F"}
                     mon.append({"cls": cls, "what": f"after `{' | '.join(r_stmts([st], random.Random(0)))}` ({rname}) NM-TRAN has {x} = {vn}, "
                                 f"the model object has {x} = {'undefined' if vi is None else vi} at {shown}; components failing: {unsafe}"})
@@ -1197,6 +1226,8 @@ def run_case(case, drv):
         return run_thetas(case, drv)
     if kind == "des":
         return run_des(case, drv)
+    if kind == "linear":
+        return run_linear(case, drv)
     raise ValueError(kind)
 
 
@@ -2006,3 +2037,84 @@ def shrink_des(case):
         uses = lambda x: isinstance(x, list) and (x[:2] in (["sym", "KEL"], ["sym", "C1"]) or any(uses(y) for y in x))
         if not uses(case["des"]):
             yield c
+
+
+# ================================================================ general linear models (ADVAN5 / ADVAN7): Kij rates, A(i) in $ERROR
+
+def g_linear_case(rng, seed):
+    n = rng.choice([2, 3, 3, 4])
+    names = rng.sample(COMP_NAMES, n)
+    pairs = [(i, j) for i in range(1, n + 1) for j in range(1, n + 1) if i != j]
+    rng.shuffle(pairs)
+    flows = sorted(pairs[:rng.randint(n - 1, min(len(pairs), n + 2))])
+    outs = sorted(rng.sample(range(1, n + 1), rng.randint(1, n)))
+    return {"kind": "linear", "advan": rng.choice(["ADVAN5", "ADVAN7"]), "names": names, "defdose": rng.randint(1, n),
+            "defobs": rng.choice([None, rng.randint(1, n)]), "flows": [list(f) for f in flows], "outs": outs,
+            "kt": rng.random() < 0.3, "obs": [rng.randint(1, n), rng.randint(1, n)], "seed": seed}
+
+
+def run_linear(case, drv):
+    rng = random.Random(case["seed"])
+    k, mon, tags = [], [], [f"linear:{case['advan']}", f"linear:n={len(case['names'])}"]
+    names = case["names"]
+    n = len(names)
+    comps = []
+    for i, nme in enumerate(names, 1):
+        opts = ([" DEFDOSE"] if i == case["defdose"] else []) + ([" DEFOBS"] if i == case["defobs"] else [])
+        comps.append(f"COMP=({nme}{''.join(opts)})")
+    rates = {}
+    for q, (i, j) in enumerate(case["flows"]):
+        rates[(i, j)] = f"K{i}T{j}" if case["kt"] else f"K{i}{j}"
+    for i in case["outs"]:
+        rates[(i, 0)] = f"K{i}T0" if case["kt"] else f"K{i}0"
+    pk = "\n".join(f"{nm} = THETA({(q % 4) + 1})*{q + 2}" for q, nm in enumerate(rates.values()))
+    o1, o2 = case["obs"]
+    text = ("$PROBLEM c01\n$INPUT ID TIME AMT DV\n$DATA c01.csv IGNORE=@\n"
+            f"$SUBROUTINES {case['advan']} TRANS1\n$MODEL " + " ".join(comps) + f"\n$PK\n{pk}\nV1 = THETA(1)\n$ERROR\nIPRED = A({o1})/V1\n"
+            f"Y = IPRED + A({o2})*EPS(1)\n$THETA (0,1) (0,10) (0,2) (0,20)\n$OMEGA 0.1\n$SIGMA 0.1\n$ESTIMATION METHOD=1\n")
+    try:
+        model = read_model_from_string(text)
+    except Exception as e:
+        mon.append({"cls": "linear-read-raises", "what": f"read_model_from_string raised {type(e).__name__}: {str(e)[:200]} on\n{text}"})
+        return {"k": k, "mon": mon, "tags": tags, "nontrivial": True}
+    cs = model.statements.ode_system
+    order = {f"A_{nme}(t)": i for i, nme in enumerate(names, 1)}
+    for trial in range(3):
+        th = {q: sympy.Rational(rng.randint(1, 12), rng.choice([1, 2, 3])) for q in range(1, 5)}
+        A = {i: sympy.Rational(rng.randint(1, 40), rng.choice([1, 2, 3, 5])) for i in range(1, n + 1)}
+        eps = sympy.Rational(rng.randint(-4, 4), 2)
+        kv = {key: th[(q % 4) + 1] * (q + 2) for q, key in enumerate(rates)}
+        dadt = {i: sum((kv[(j, i2)] * A[j] for (j, i2) in kv if i2 == i), sympy.Integer(0))
+                - sum((kv[(i1, j)] * A[i] for (i1, j) in kv if i1 == i), sympy.Integer(0)) for i in range(1, n + 1)}
+        env = {nme: th[i + 1] for i, nme in enumerate([p for p in model.parameters.names if p.startswith("THETA")])}
+        env.update({f"A_{nme}(t)": A[i] for i, nme in enumerate(names, 1)})
+        env[model.random_variables.epsilons.names[0]] = eps
+        env["t"] = sympy.Integer(1)
+        for s in model.statements.before_odes:
+            env[str(s.symbol)] = ev_sympy(s.expression._sympy_(), env)
+        for eq in cs.eqs:
+            fn = str(eq.lhs._sympy_().args[0])
+            got = ev_sympy(eq.rhs._sympy_(), env)
+            if fn not in order or not same(dadt[order[fn]], got):
+                mon.append({"cls": "linear-equations-differ", "what": f"{fn}: general linear model gives {dadt.get(order.get(fn))}, the model object "
+                            f"`{eq.lhs} = {eq.rhs}` gives {got}\n{text}"})
+                return {"k": k, "mon": mon, "tags": tags, "nontrivial": True}
+        for s in model.statements.after_odes:
+            env[str(s.symbol)] = ev_sympy(s.expression._sympy_(), env)
+        want_ipred = A[o1] / th[1]
+        want_y = want_ipred + A[o2] * eps
+        if not same(env["IPRED"], want_ipred) or not same(env["Y"], want_y):
+            reordered = [order[str(a)] for a in cs.amounts] != list(range(1, n + 1))
+            cls = "error-amount-index-reordered" if reordered else "linear-error-amounts"
+            mon.append({"cls": cls, "what": f"$ERROR `IPRED = A({o1})/V1`, `Y = IPRED + A({o2})*EPS(1)`: compartments of $MODEL are {names}; the model "
+                        f"object has {[str(s.symbol) + ' = ' + str(s.expression) for s in model.statements.after_odes]} "
+                        f"(amounts ordered {[str(a) for a in cs.amounts]})\n{text}"})
+            break
+    dflt_obs = case["defobs"] or _default_obs(names)
+    fl = [s for s in model.statements.after_odes if str(s.symbol) == "F"]
+    if not fl or str(fl[0].expression) != f"A_{names[dflt_obs - 1]}(t)":
+        mon.append({"cls": "linear-default-observation", "what": f"F = {fl[0].expression if fl else None}, default observation compartment is {names[dflt_obs - 1]}\n{text}"})
+    dosed = [c for c in names if len(cs.find_compartment(c).doses) > 0]
+    if dosed != [names[case["defdose"] - 1]]:
+        mon.append({"cls": "linear-default-dose", "what": f"dosed compartments {dosed}, DEFDOSE is {names[case['defdose'] - 1]}\n{text}"})
+    return {"k": k, "mon": mon, "tags": tags, "nontrivial": True}
